@@ -6,6 +6,7 @@ those symbols and reference terms are kept iff every incoming state entails
 them.  For loops the template constraints are *candidates*: assumed at the
 head, checked at every back edge, dropped when not re-established, until the
 set is inductive."""
+import re
 from .lin import LinExpr, Store, fresh, ZERO
 from .absval import *
 from .prog import rv_operands
@@ -660,8 +661,54 @@ def syntactic_modified(self, fr, body, st):
     return out
 
 
+SPLIT_MAX = 2
+# (the per-entry-state analysis pays off in the substring layer, whose comparison loops are entered from two different
+#  positions; the byte-search layer has deeply nested counting loops where it only multiplies work)
+SPLIT_ROOTS = re.compile(r'memmem|twoway|rabinkarp|packedpair|shiftor|arch::all::is_')
+
+
 def exec_loop(self, fr, h, entry_states):
-    """execute the natural loop with header h; returns {'exits': [(block, state)], 'returns': [state]}"""
+    """execute the natural loop with header h; returns {'exits': [(block, state)], 'returns': [state]}.
+    Two precision measures before the (merging) Houdini analysis:
+      * an entry state for which the loop header leaves the loop at once takes that exit directly and does not
+        take part in the invariant (its facts need not hold inside the body);
+      * an innermost loop entered in at most SPLIT_MAX different states is analysed once per entry state."""
+    inst = fr.inst
+    body = fr.loops[h]
+    pre_exits = []
+    if len(entry_states) > 1:
+        keep = []
+        for E in entry_states:
+            self.silent += 1
+            try:
+                succ = self.exec_block(fr, h, E.copy())
+            except Exception:
+                succ = None
+            finally:
+                self.silent -= 1
+            if succ is not None and succ and all(nb != 'return' and nb != h and nb not in body for nb, _ in succ):
+                # (re-run un-silenced so that the header's obligations are recorded for this path too)
+                for nb, ns in self.exec_block(fr, h, E):
+                    pre_exits.append((nb, ns))
+            else:
+                keep.append(E)
+        entry_states = keep
+        if not entry_states:
+            return {'exits': pre_exits, 'returns': []}
+    innermost = not any(o != h and o in body for o in fr.loops)
+    if innermost and 1 < len(entry_states) <= SPLIT_MAX and SPLIT_ROOTS.search(self.root or ''):
+        out = {'exits': list(pre_exits), 'returns': []}
+        for E in entry_states:
+            r = exec_loop1(self, fr, h, [E])
+            out['exits'] += r['exits']
+            out['returns'] += r['returns']
+        return out
+    r = exec_loop1(self, fr, h, entry_states)
+    r['exits'] = pre_exits + r['exits']
+    return r
+
+
+def exec_loop1(self, fr, h, entry_states):
     inst = fr.inst
     body = fr.loops[h]
     self.stats['loops'] += 1
